@@ -8,6 +8,7 @@ UNIT = Unit(
     prelude=["core.rs", "raw.rs", "iter.rs", "crypto.rs", "state_abs.rs", "num.rs", "melswap.rs"],
     lemmas=["sums.rs", "iterlem.rs", "coinsview.rs", "tips.rs", "apply.rs", "stateinv.rs"],
     items=[
+        *pk_stubs(),
         Fn(DEP_MELSWAP, "swap_many", impl="PoolState", mode="assume", **ps_swap_many()),
         TypeItem(S, "struct", "UnsealedState"),
         TypeItem("src/tip_heights.rs", "const", "TIP_909_HEIGHT"),
